@@ -18,7 +18,10 @@ def run(ctx):
     report = Report("C05", ctx, "R1 at every Ok return of RData::parse the numeric domain entails cursor_out = cursor_in + 10 + RDLENGTH, "
                     "where RDLENGTH is the 16-bit big-endian read at +8; R2 the typed parser receives the message prefix ending at "
                     "that position; R3 TYPE/CLASS/TTL/RDLENGTH and QTYPE/QCLASS are read at their fixed offsets after the name; "
-                    "R4 parse_section pushes exactly one parsed element per iteration of a 0..count loop.")
+                    "R4 parse_section pushes exactly one parsed element per iteration of a 0..count loop; "
+                    "R5 Packet::parse fills questions/answers/name_servers/additional_records from four consecutive parse_section "
+                    "calls whose counts are QDCOUNT/ANCOUNT/NSCOUNT/ARCOUNT in that order, and touches the resulting vectors "
+                    "mutably only through the order-preserving Vec::remove that lifts the OPT record out.")
     rp = ctx.must_find(report, "simple_dns::<RData as WireFormat>::parse")
     rr = ctx.must_find(report, "simple_dns::<ResourceRecord as WireFormat>::parse")
     qp = ctx.must_find(report, "simple_dns::<Question as WireFormat>::parse")
@@ -142,8 +145,167 @@ def run(ctx):
             report.sample({"fn": ps.qname, "loop": why})
         else:
             viol(report, "C05-R4", ps, "shape", "parse_section: the element parser and the push are not both inside a finite 0..count loop (%s)" % why)
+    r5(ctx, report)
     report.assumptions += ["A-OVF", "equality of decoded field values with a reference decoder is not decided (value-level)"]
     return report.finish()
+
+
+SECTIONS = ["questions", "answers", "name_servers", "additional_records"]
+
+
+def r5(ctx, report):
+    """sections keep wire order: which count feeds which section, which section lands in which field, and no
+    reordering / dropping operation on the section vectors between parse_section and the returned Packet"""
+    prog = ctx.prog
+    pp = ctx.must_find(report, "simple_dns::Packet::parse")
+    if pp is None:
+        return
+    defs = mu.defs_of(pp)
+    dom = mu.dominators(pp)
+    calls = mu.calls(pp, r"Packet::<'a>::parse_section$")
+    report.count()
+    if len(calls) != 4:
+        viol(report, "C05-R5", pp, "sections", "Packet::parse calls parse_section %d times, expected once per section (4)" % len(calls))
+        return
+    # wire order = dominance order of the calls (they share one cursor)
+    calls.sort(key=lambda c: len(dom[c[0]]))
+    for (b1, _), (b2, _) in zip(calls, calls[1:]):
+        if b1 not in dom[b2]:
+            viol(report, "C05-R5", pp, "sections", "the parse_section calls are not on one straight path")
+            return
+    cursors = set()
+    vec_of_call = []
+    for k, (bi, t) in enumerate(calls):
+        report.count()
+        # the count argument: Continue payload of header_buffer::<section>(data)?
+        cnt = mu.op_local(t["args"][2])
+        src = None
+        cur = cnt
+        for _ in range(8):
+            if cur is None:
+                break
+            ds = defs.get(cur, [])
+            if len(ds) != 1:
+                break
+            bi2, si2, x = ds[0]
+            if si2 == "term":
+                cal = x["callee"]["def"] if x["callee"] else ""
+                if cal.endswith("as std::ops::Try>::branch"):
+                    cur = mu.op_local(x["args"][0])
+                    continue
+                src = cal
+                break
+            if x.get("k") == "use" and x["op"].get("o") in ("copy", "move"):
+                cur = x["op"]["pl"]["l"]     # payload projections `(_19 as Continue).0` keep the base local
+                continue
+            break
+        want = "header_buffer::%s" % SECTIONS[k]
+        if src is None or not src.endswith(want):
+            viol(report, "C05-R5", pp, "count", "the %s parse_section call takes its count from %s, expected %s: entries would be "
+                 "attributed to the wrong section" % (["first", "second", "third", "fourth"][k], src or "an untraced value", want), SECTIONS[k])
+        else:
+            report.nontriv("count %s" % SECTIONS[k])
+        # cursor argument: &mut of one and the same local
+        c = mu.op_local(t["args"][1])
+        st = mu.trace_back(pp, defs, c) if c is not None else []
+        base = None
+        for (_, _, si3, x) in st:
+            if si3 != "term" and x.get("k") == "ref" and not x["pl"]["p"]:
+                base = x["pl"]["l"]
+        cursors.add(base)
+        # result vector: dest -> branch -> Continue payload -> named local
+        dest = t["dest"]["l"]
+        vec = set()
+        cur = dest
+        for _ in range(8):
+            users = []
+            for bj, bl in enumerate(pp.blocks):
+                if bl["cleanup"]:
+                    continue
+                tt = bl["term"]
+                if tt["t"] == "call" and any(mu.op_local(a) == cur for a in tt["args"]) and tt["callee"] and \
+                        tt["callee"]["def"].endswith("as std::ops::Try>::branch"):
+                    users.append(("call", tt["dest"]["l"]))
+                for s2 in bl["stmts"]:
+                    if s2["s"] == "assign" and s2["rv"]["k"] == "use" and s2["rv"]["op"].get("o") in ("copy", "move") \
+                            and s2["rv"]["op"]["pl"]["l"] == cur and not s2["pl"]["p"] \
+                            and "std::vec::Vec<" in pp.local_ty(s2["pl"]["l"])["s"]:
+                        users.append(("mv", s2["pl"]["l"]))
+            if len(users) != 1:
+                break
+            cur = users[0][1]
+            if pp.local_ty(cur)["s"].startswith("std::vec::Vec<"):
+                vec.add(cur)
+        vec_of_call.append(vec)
+    report.count()
+    if len(cursors) != 1 or None in cursors:
+        viol(report, "C05-R5", pp, "cursor", "the four parse_section calls do not share one cursor variable")
+    else:
+        report.nontriv("one cursor")
+    # the Ok(Packet{..}) aggregate: field k+1 <- vector of call k
+    aggs = mu.aggregates(pp, "packet::Packet")
+    report.count()
+    if len(aggs) != 1:
+        viol(report, "C05-R5", pp, "fields", "expected one Packet construction in Packet::parse, found %d" % len(aggs))
+        return
+    adt = prog.adts.get("simple_dns::dns::packet::Packet")
+    fnames = [f["name"] for f in adt["variants"][0]["fields"]] if adt else []
+    ops = aggs[0][2]["rv"]["ops"]
+    for k, sec in enumerate(SECTIONS):
+        report.count()
+        if sec not in fnames:
+            viol(report, "C05-R5", pp, "fields", "Packet has no field %s" % sec, sec)
+            continue
+        o = mu.origin_local(pp, defs, mu.op_local(ops[fnames.index(sec)]))
+        if o not in vec_of_call[k]:
+            viol(report, "C05-R5", pp, "fields", "Packet.%s is not the vector returned by the %s parse_section call (wire order of "
+                 "sections is lost)" % (sec, ["first", "second", "third", "fourth"][k]), sec)
+        else:
+            report.nontriv("field %s" % sec)
+    # mutable access to the section vectors: `&mut <vec>` may only feed the audited lift-out closure, whose only
+    # mutation is Vec::remove (order-preserving; swap_remove / retain / sort / reverse / drain ... are not)
+    vecs = set(v for c in vec_of_call for v in c)
+    n_mut = 0
+    for bi, bl in enumerate(pp.blocks):
+        if bl["cleanup"]:
+            continue
+        for si, s2 in enumerate(bl["stmts"]):
+            if s2["s"] != "assign" or s2["rv"]["k"] != "ref" or not s2["rv"]["mut"] or s2["rv"]["pl"]["l"] not in vecs:
+                continue
+            n_mut += 1
+            report.count()
+            r = s2["pl"]["l"]
+            ok = False
+            why = "it is passed to code other than a closure of Packet::parse"
+            for bj, bl2 in enumerate(pp.blocks):
+                for s3 in bl2["stmts"]:
+                    if s3["s"] == "assign" and s3["rv"]["k"] == "agg" and s3["rv"].get("ak") == "closure" and \
+                            any(mu.op_local(o) == r for o in s3["rv"]["ops"]):
+                        cb = prog.bodies.get(s3["rv"]["def"])
+                        muts = []
+                        for _, tt in mu.calls(cb, r".") if cb is not None else []:
+                            a0 = tt["args"][0] if tt["args"] else None
+                            if a0 is not None and a0.get("o") in ("copy", "move") and \
+                                    cb.ty(a0["pl"]["t"])["s"].startswith("&mut std::vec::Vec<"):
+                                muts.append(tt["callee"]["def"])
+                        bad = [m for m in muts if m != "std::vec::Vec::<T, A>::remove"]
+                        if cb is not None and not bad and len(muts) <= 1:
+                            ok = True
+                        else:
+                            why = "its closure mutates the vector through %s" % (bad or muts)
+            if ok:
+                report.nontriv("mut-borrow bb%d" % bi)
+            else:
+                viol(report, "C05-R5", pp, "order", "section vector _%d is borrowed mutably at `%s` and %s: only Vec::remove keeps the "
+                     "remaining records in wire order" % (s2["rv"]["pl"]["l"], s2["sp"].get("sn") or "&mut", why), "mut-borrow")
+    # calls that take a section vector by value (into_iter / sort via by-value helpers) before the aggregate
+    for bi, t in mu.calls(pp, r"."):
+        for a in t["args"]:
+            if a.get("o") == "move" and not a["pl"]["p"] and a["pl"]["l"] in vecs:
+                report.count()
+                viol(report, "C05-R5", pp, "order", "section vector _%d is moved into %s before the Packet is built" % (
+                    a["pl"]["l"], t["callee"]["def"] if t["callee"] else "an indirect call"), "moved")
+    report.extra["C05-R5"] = {"section_vectors": sorted(vecs), "mutable_borrows": n_mut}
 
 
 def _st(oks, bi):
